@@ -90,3 +90,10 @@ CLAIMED['C14'] = ('6/C14', 'Bounded-exhaustive symbolic check: an instance of Q(
                   'the held object changes only inside edit_constant or by re-assigning the identical object, other attempts raise TypeError, '
                   'class-level sets leave the instance alone, every constant flag is restored on every exit.',
                   'symbolic execution (CrossHair+z3) of the constant/readonly guard and edit_constant against an identity model')
+CLAIMED['C15'] = ('6/C15', 'Bounded-exhaustive symbolic round-trip check with the JSON text abstracted by the stdlib contract: groups of parameters '
+                  '(Integer, Number/allow_None, String<=4 chars, Boolean, Tuple, NumericTuple, XYCoordinates, Range, List, Dict, Selector, '
+                  'ListSelector, Color, Date, CalendarDate, DateRange, CalendarDateRange) get symbolic values (unbounded ints, exact IEEE '
+                  'doubles), are serialized (instance/class level, 4 subset masks), deserialized and rebuilt; equality and identical type '
+                  'per parameter, also through serialize_value/deserialize_value. The date format round trip for every year 1..9999 and '
+                  'the DateRange discriminator are decided in z3 from the format strings read from the source (unsat of "does not parse").',
+                  'symbolic execution (CrossHair+z3) of the serializer loop and per-type hooks with a JSON contract stub; strftime/strptime format model in z3')
